@@ -205,6 +205,19 @@ def extra_scenarios(ctx):
         add({p: late[p]}, inputs=[p], output=p)                       # failing file onto itself
         add({p: late[p]}, inputs=[p], output='o.' + p.split('.')[1])
         add({p: late[p]}, inputs=[p])                                 # to stdout
+    # a bundle with a failing input (first, middle, last): the destination holds the ORIGINAL bytes of the whole bundle,
+    # also when the bundle is written onto one of its own sources (backup restored or removed: never one input's bytes alone)
+    for bad in (0, 1, 2):
+        fs = {'a.js': 'var a = 1', 'm.js': 'var m = 2 //c', 'z.js': '(function(){z()})()'}
+        fs[sorted(fs)[bad]] = JS_BAD[1]
+        for dest in ('a.js', 'm.js', 'z.js', 'o.js', None):
+            if q and dest not in ('a.js', 'z.js', 'o.js') and bad != 1:
+                continue
+            kw = dict(inputs=['a.js', 'm.js', 'z.js'], b=True)
+            if dest:
+                kw['output'] = dest
+            add(fs, **kw)
+    add({'c1.css': 'a { color : red }', 'c2.css': CSS_OK[1], 'j.json': JSON_BAD[0]}, inputs=['c1.css', 'j.json', 'c2.css'], output='c1.css', b=True, type='json')
     out.append(dict(tree=[], inv=inv(stdin=True, type='js'), stdin=s2b(JS_BAD[1])))
     out.append(dict(tree=[], inv=inv(stdin=True, type='json', output='o.json'), stdin=s2b(JSON_BAD[0])))
     out.append(dict(tree=[], inv=inv(stdin=True, type='text/html'), stdin=s2b(HTML_OK[1])))
